@@ -39,7 +39,7 @@ pub fn run(ctx: &Ctx) -> Outcome {
     let mut numbers: Vec<u64> = (1..2000).collect();
     numbers.extend(gen::group_sweep(ctx.seed).into_iter().filter(|n| *n >= 1 && *n < 1_000_000_000).step_by(if ctx.quick() { 5 } else { 1 }));
     numbers.extend(gen::boundaries().into_iter().filter(|n| *n >= 1 && *n < 1_000_000_000));
-    let n_random = ctx.n(10_000, 400_000);
+    let n_random = ctx.n(60_000, 1_200_000);
     let numbers = &numbers;
     let rep = run_sharded(ctx, |w, nw, rep| {
         let ls = LangSet::new();
